@@ -442,7 +442,13 @@ class CallMixin:
 
     def _call_lambda(self, fn, args, kwargs, n, st, frame) -> AV:
         _, node, def_frame, envref = fn
-        sub = State(dict(envref.env), st.facts, st.ctrl, True, st.xctrl)
+        base_env = dict(envref.env)
+        if frame is def_frame:
+            # called in the function that defined it: the captured variables have their CURRENT values (a dict the
+            # closure fills over several calls is the same dict each time), not those of the moment of the `def`
+            for k, v in st.env.items():
+                base_env[k] = v
+        sub = State(base_env, st.facts, st.ctrl, True, st.xctrl)
         a = node.args
         fr = Frame(def_frame.func, def_frame.module, def_frame.recv_cls, def_frame.self_av, frame.depth + 1,
                    def_frame.callsite_key)
@@ -1128,6 +1134,16 @@ class CallMixin:
                 r = self.try_dunder(a0, dunder, list(args[1:]), n, st, frame)
                 if r is not None:
                     return r
+        if name in ("heapq.heappush", "heapq.heappop", "heapq.heapify", "heapq.heappushpop", "heapq.heapreplace") and a0 is not None:
+            # the heap is a plain list that these functions update in place
+            if name in ("heapq.heappush", "heapq.heappushpop", "heapq.heapreplace") and len(args) > 1:
+                self.mutate(a0, args[1], "add", n, st, frame, "append")
+            if name == "heapq.heappush":
+                return t("None", const=None)
+            if name == "heapq.heapify":
+                return t("None", const=None)
+            self.mutate(a0, None, "del", n, st, frame, "pop")
+            return replace(elem_of(a0), const=NOCONST)
         if kind in ("deepcopy", "copy"):
             return _refresh(a0, fresh, deep=(kind == "deepcopy")) if a0 is not None else TOP
         if kind == "product":
